@@ -4,5 +4,6 @@ CONSTANTS MaxOps = 4
   Targets <- TargetsAll
   NevTargets <- NevAll
   AddWeights <- WeightsAll
+  SeqOnly = FALSE
 INVARIANT Emitted
 CHECK_DEADLOCK FALSE
